@@ -277,7 +277,7 @@ def run_query(ob, extra_defs):
     r.unwind_failed = [u for u in unw if u['status'] == 'FAILURE']
     r.failed = [x for x in rest if x['status'] == 'FAILURE']
     unknown = [x for x in res if x['status'] not in ('SUCCESS', 'FAILURE')]
-    if unknown:
+    if unknown and not r.failed:
         r.status = 'error'; r.detail = 'properties with status %s' % set(x['status'] for x in unknown); return r, gb
     if r.failed: r.status = 'failed'
     elif r.unwind_failed: r.status = 'unwind'
